@@ -12,7 +12,11 @@ import (
 
 func main() {
 	out := os.Args[1]
-	ov, _, err := instrument.Build("/repo", filepath.Join(out, "ov"), instrument.LevelA)
+	src := "/repo"
+	if d := os.Getenv("VERIF_REPO"); d != "" {
+		src = d
+	}
+	ov, _, err := instrument.BuildFrom(src, "/repo", filepath.Join(out, "ov"), instrument.LevelA)
 	if err != nil {
 		panic(err)
 	}
